@@ -341,8 +341,13 @@ func vfC14Merge(env *vfc.Env, id string, r *ref.Rand, dir string, maxItems int) 
 	empty := 0
 	maxds := uint32(0)
 	chunk := 0
+	sameChunk := 0
 	for i := 0; i < k; i++ {
-		chunk += r.Range(1, 3)
+		if i > 0 && r.Intn(3) == 0 {
+			sameChunk++ // another hint split of the same data file: same file id, only the offsets tell the entries apart
+		} else {
+			chunk += r.Range(1, 3)
+		}
 		n := r.Range(0, len(pool))
 		if r.Intn(10) == 0 {
 			n = 0
@@ -358,7 +363,7 @@ func vfC14Merge(env *vfc.Env, id string, r *ref.Rand, dir string, maxItems int) 
 			it.Vhash = uint16(r.Uint64())
 			its = append(its, it)
 		}
-		path := filepath.Join(dir, fmt.Sprintf("%s.%03d.000.idx.s", id, chunk))
+		path := filepath.Join(dir, fmt.Sprintf("%s.%03d.%03d.idx.s", id, chunk, i))
 		exp, ds, _, err := vfWriteHint(r, path, its, r.Bool())
 		if err != nil {
 			res.Inconc("cannot write merge source: " + err.Error())
@@ -463,6 +468,9 @@ func vfC14Merge(env *vfc.Env, id string, r *ref.Rand, dir string, maxItems int) 
 	}
 	res.Seen(fmt.Sprintf("merge/sources=%d/empty=%v/groups=%s/items=%s", k, empty > 0, vfBucket(ngroups), vfBucket(len(want))))
 	res.Event("merges", 1)
+	if sameChunk > 0 {
+		res.Event("merge.with_splits_of_one_file", 1)
+	}
 	res.Event("merge.collision_groups", int64(ngroups))
 }
 
